@@ -188,11 +188,6 @@ pub fn run(tier: Tier) -> i32 {
                 acc.hist_n(&format!("encoded_in_{n}_bytes"), by_len[n]);
             }
         }
-        if c > 0 {
-            acc.nontrivial += 1 << 16;
-        } else {
-            acc.nontrivial += (1 << 16) - 128;
-        }
     });
     rep.acc = acc;
     // E2: boundary-length entries through Writer/Reader and the independent decoder
@@ -235,7 +230,7 @@ pub fn run(tier: Tier) -> i32 {
     }
     rep.acc.merge(a3);
     rep.acc.merge(big_thread.join().expect("big-entry thread panicked"));
-    rep.set("rule", json!("E4: all 2^32 length values through the verif re-export of the private codec: encode must produce 1..=5 bytes, and decode must return the value and consume exactly the encoded length on (i) the exact bytes, (ii) the bytes followed by 0xFF.., (iii) followed by 0x00..; E2: entries whose key or value length is 2^7, 2^14, 2^21 -1/0/+1 (plus one 2^28-byte value; thorough: 2^28 -1/0/+1 for keys and values) written through Writer, read back through Reader (both scans; alone in its file; and sharing one block with its neighbours, reached through GE/LE/EQ seeks), and inserted into a Sorter (alone and with neighbours, with and without a spill) and streamed back; distinct_nontrivial = values needing >= 2 bytes plus boundary entries"));
+    rep.set("rule", json!("E4: all 2^32 length values through the verif re-export of the private codec: encode must produce 1..=5 bytes, and decode must return the value and consume exactly the encoded length on (i) the exact bytes, (ii) the bytes followed by 0xFF.., (iii) followed by 0x00..; E2: entries whose key or value length is 2^7, 2^14, 2^21 -1/0/+1 (plus one 2^28-byte value; thorough: 2^28 -1/0/+1 for keys and values) written through Writer, read back through Reader (both scans; alone in its file; and sharing one block with its neighbours, reached through GE/LE/EQ seeks), and inserted into a Sorter (alone and with neighbours, with and without a spill) and streamed back; distinct_nontrivial = boundary entries run through the API (the 2^32 sweep exercises the two codec functions only: call-site defects between 2^28+2 and 2^32-1 bytes are out of reach, such entries cannot be allocated here)"));
     rep.set("bound", json!({"values": "0..=2^32-1 (complete)", "api_boundary_entries": pairs.len() + quick_big.len(), "largest_api_length": lens.iter().max()}));
     rep.assume("API-level entries of 2^32-1 bytes are not run (>= 12 GiB of copies per case); that boundary is covered at codec level only");
     rep.finish()
